@@ -15,7 +15,7 @@ import z3
 from engine.common.core import Obligation, Cover, mval
 from engine.cvc import frontend, contract as K, replay as R
 from contracts.c import sercomm as CT
-from contracts.c.sercomm import ST_WAIT, ST_ADDR, ST_CTRL, ST_DATA, ST_ESC, NDLCI
+from contracts.c.sercomm import ST_WAIT, ST_ADDR, ST_CTRL, ST_DATA, ST_ESC, ST_AESC, ST_CESC, NDLCI
 from spec import hdlc_wire as W
 
 ID = "C06"
@@ -60,6 +60,9 @@ def build_c(run):
     for mode, extra, rx_expected in BUILDS:
         tu, _ = parse(mode)
         rx = rx_size_of(tu)
+        for nm, val in CT.STATE_NAMES.items():
+            if tu.enum_by_name.get(nm) != val:
+                raise K.Unsupported("enum rx_state: %s is %r in this build, the case table of contracts/c/sercomm.py assumes %d" % (nm, tu.enum_by_name.get(nm), val))
         ex = {"build": mode, "rx_size": rx}
         K.verify(run, ID, tu, CT.SendMsg, tag_extra=ex)
         K.verify(run, ID, tu, CT.DrvPull, tag_extra=ex)
@@ -120,10 +123,9 @@ def i_rx(tx, rx, O, RX, js):
     content = [z3.Implies(z3.And(0 <= x, x < k - 2), z3.Select(rx.rb, rx.rd + x) == sel(tx.d + 2 + x)) for x in js]
     return z3.And(
         CT.rx_geometry(rx, RX), rx.types(),
-        z3.Implies(z3.And(k == 0, z3.Not(tx.esc)), z3.And(rx.st == ST_ADDR, CT.rx_empty(rx))),
-        # escape marker conveyed for the address octet: the receiver would have to remember it; it has no such state
-        z3.Implies(z3.And(k == 0, tx.esc), z3.BoolVal(False)),
-        z3.Implies(k == 1, z3.And(rx.st == ST_CTRL, rx.dlci == sel(tx.d), CT.rx_empty(rx))),
+        # an escape marker conveyed for the address / control octet is remembered in the *_ESCAPE states
+        z3.Implies(k == 0, z3.And(rx.st == z3.If(tx.esc, ST_AESC, ST_ADDR), CT.rx_empty(rx))),
+        z3.Implies(k == 1, z3.And(rx.st == z3.If(tx.esc, ST_CESC, ST_CTRL), rx.dlci == sel(tx.d), CT.rx_empty(rx))),
         z3.Implies(k >= 2, z3.And(rx.has, rx.st == z3.If(tx.esc, ST_ESC, ST_DATA), rx.dlci == sel(tx.d), rx.ctrl == sel(tx.d + 1),
                                   rx.rt - rx.rd == k - STORED_OFFSET, *content)))
 
@@ -213,21 +215,20 @@ def k_inv(tx, rx, RX):
     """any well-formed frame (of ANY length) sent to a receiver that was in sync: the receiver follows or has dropped the frame"""
     k = tx.n - tx.d
     lost = z3.And(rx.st == ST_WAIT, CT.rx_empty(rx))
-    a = z3.And(rx.st == ST_ADDR, k == 0, z3.Not(tx.esc), CT.rx_empty(rx))
-    c = z3.And(rx.st == ST_CTRL, CT.rx_empty(rx), z3.Or(z3.And(k == 1, z3.Not(tx.esc)), z3.And(k == 0, tx.esc)))
-    dd = z3.And(z3.Or(rx.st == ST_DATA, rx.st == ST_ESC), (rx.st == ST_ESC) == tx.esc, rx.has, rx.rt - rx.rd >= k - 2, k >= 1)
-    return txrep(tx) + [tx.t - tx.d >= 2, z3.Select(tx.buf, tx.d + 1) == W.CTRL_UI, CT.rx_geometry(rx, RX), rx.types(), z3.Or(lost, a, c, dd)]
+    a = z3.And(rx.st == z3.If(tx.esc, ST_AESC, ST_ADDR), k == 0, CT.rx_empty(rx))
+    c = z3.And(rx.st == z3.If(tx.esc, ST_CESC, ST_CTRL), k == 1, CT.rx_empty(rx))
+    dd = z3.And(z3.Or(rx.st == ST_DATA, rx.st == ST_ESC), (rx.st == ST_ESC) == tx.esc, rx.has, rx.rt - rx.rd >= k - 2, k >= 2)
+    return txrep(tx) + [tx.t - tx.d >= 2, CT.rx_geometry(rx, RX), rx.types(), z3.Or(lost, a, c, dd)]
 
 
 def j_inv(tx, rx, O, RX, js):
-    """the frame that follows an over-long one, receiver one flag ahead: everything is understood one field late"""
+    """the frame that follows an over-long one, receiver one flag ahead: everything is understood one field late (the opening flag as
+    address, the address octet as control octet, control octet and payload as payload: one octet more than the payload is stored)"""
     k = tx.n - tx.d
-    e = z3.If(W.needs_escape(z3.Select(O, tx.d)), 1, 0)
-    c = z3.And(rx.st == ST_CTRL, CT.rx_empty(rx), k == 0, z3.Not(tx.esc))
-    d0 = z3.And(rx.st == ST_DATA, CT.rx_empty(rx), k == 0, tx.esc)
-    dd = z3.And(k >= 1, z3.Or(rx.st == ST_DATA, rx.st == ST_ESC), (rx.st == ST_ESC) == tx.esc, rx.has, rx.rt - rx.rd == k - 1 + e)
+    c = z3.And(rx.st == z3.If(tx.esc, ST_CESC, ST_CTRL), CT.rx_empty(rx), k == 0)
+    dd = z3.And(k >= 1, z3.Or(rx.st == ST_DATA, rx.st == ST_ESC), (rx.st == ST_ESC) == tx.esc, rx.has, rx.rt - rx.rd == k - 1)
     L = tx.t - tx.d
-    return CT.txi(tx, O, js) + [L >= 2, L - 2 < RX, z3.Select(O, tx.d + 1) == W.CTRL_UI, CT.rx_geometry(rx, RX), rx.types(), z3.Or(c, d0, dd)]
+    return CT.txi(tx, O, js) + [L >= 2, L - 2 < RX, z3.Select(O, tx.d + 1) == W.CTRL_UI, CT.rx_geometry(rx, RX), rx.types(), z3.Or(c, dd)]
 
 
 def resync(run, mode, RX):
@@ -243,7 +244,7 @@ def resync(run, mode, RX):
 
     # K: a well-formed frame of any length, receiver in sync at its start
     md, mt = z3.Int("m.d"), z3.Int("m.t")
-    hy = [tx.idle, z3.Not(tx.esc), CT.sync_idle(rx, RX), mt - md >= 2, z3.Select(O, md + 1) == W.CTRL_UI]
+    hy = [tx.idle, z3.Not(tx.esc), CT.sync_idle(rx, RX), mt - md >= 2]
     ch, tx1 = CT.pull_start(tx, O, md, mt)
     ret, rx1, dv = CT.rx_abs(rx, ch, RX, "ks")
     for n_, g in enumerate(k_inv(tx1, rx1, RX)):
@@ -482,17 +483,18 @@ def scenarios(seed, rx, clause):
     import random
     rnd = random.Random(seed)
     special = [0x7E, 0x7D, 0x00, 0x5E, 0x5D, 0x20, 0x03, 0xFF]
-    safe = [d for d in range(1, 128) if d not in (0x7D, 0x7E)]
+    safe = list(range(0, 128))          # every DLCI the harness registers its handler for (128 is the echo handler)
+    esc_dlci = [0x00, 0x7D, 0x7E]
 
     def payload(n):
         return [rnd.choice(special) if rnd.random() < 0.5 else rnd.randrange(256) for _ in range(n)]
     if "resync" in clause or "overflow" in clause or "fresh_buffer" in clause or "state" in clause:
         for n_over in (rx, rx + 1, rx + 40, 3 * rx):
-            for d in (rnd.choice(safe), 5):
+            for d in (rnd.choice(safe), 5, rnd.choice(esc_dlci)):
                 yield ("overlong", [[(4, payload(n_over))], [(d, payload(rnd.choice([0, 1, 7, rx - 2, rx - 1])))], [(6, payload(5))], [(7, payload(3))]])
     for k in range(12):
         lens = [rnd.choice([0, 1, 2, 3, 8, 31, rx - 1, rx - 2]) for _ in range(rnd.randrange(1, 6))]
-        yield ("plain", [[(rnd.choice(safe), payload(n)) for n in lens] for _ in range(rnd.randrange(1, 3))])
+        yield ("plain", [[(rnd.choice(esc_dlci) if rnd.random() < 0.3 else rnd.choice(safe), payload(n)) for n in lens] for _ in range(rnd.randrange(1, 3))])
 
 
 def replay_c(payload):
@@ -556,7 +558,7 @@ replay = replay_c
 
 # ---------------------------------------------------------------------- negative controls
 
-BASELINE_VIOLATIONS = ("coupling.preserved.receiver_tracks_transmitter", "resync.following_frame.preserved.not_lost_again")
+BASELINE_VIOLATIONS = ()      # H5 (address/control octets not un-escaped) is repaired in /repo (70ceb72)
 
 
 class _WrongPullPlain(CT.DrvPull):
@@ -600,14 +602,35 @@ def _wrong_coupling(run):
         STORED_OFFSET = 2
 
 
+def _pre_repair(fn):
+    """spec-level control: with the receiver case table from before the repair of H5 (no ADDR_ESCAPE / CTRL_ESCAPE) the delivery
+    invariant must fail again"""
+    def b(run):
+        CT.PRE_REPAIR_TABLE = True
+        try:
+            fn(run, "fw", 256)
+        finally:
+            CT.PRE_REPAIR_TABLE = False
+    return b
+
+
 WRONG_POSTS = [
+    ("coupling over the pre-repair receiver table", _pre_repair(lambda run, m, rx: coupling(run, m, rx)), "coupling.preserved.receiver_tracks_transmitter"),
+    ("resync over the pre-repair receiver table", _pre_repair(lambda run, m, rx: resync(run, m, rx)), "resync.following_frame.preserved"),
     ("pull: never sends the escape octet", _wrong(_WrongPullPlain), "post.WRONG_zero_sent_plain"),
     ("pull: highest DLCI first", _wrong(_WrongPriority), "post.WRONG_highest_dlci_first"),
     ("rx_char: stays in ESCAPE", _wrong(_WrongRxEscape, 256), "post.WRONG_escape_state_left_on_flag_only"),
     ("sendmsg: control octet first", _wrong(_WrongSend), "post.WRONG_control_octet_first"),
     ("coupling: control octet counted as payload", _wrong_coupling, "coupling.delivery.length_identical"),
 ]
+_ADDR_ESC = "\t\tif (ch == HDLC_ESCAPE) {\n\t\t\tsercomm.rx.state = RX_ST_ADDR_ESCAPE;\n\t\t\tbreak;\n\t\t}\n"
+_CTRL_ESC = "\t\tif (ch == HDLC_ESCAPE) {\n\t\t\tsercomm.rx.state = RX_ST_CTRL_ESCAPE;\n\t\t\tbreak;\n\t\t}\n"
 MUTANTS = [
+    # the repair of H5 reverted: the step contract of rx_char fails on the code (the coupling obligations are about the contract's case
+    # table, see WRONG_POSTS for their sensitivity); replay: a message on DLCI 00 / 7D / 7E is not delivered intact
+    (CT.SERCOMM, _ADDR_ESC, "", "sercomm_drv_rx_char_post.state"),
+    (CT.SERCOMM, _CTRL_ESC, "", "sercomm_drv_rx_char_post.state"),
+    (CT.SERCOMM, "\t\tsercomm.rx.dlci = ch ^ (1 << 5);", "\t\tsercomm.rx.dlci = ch;", "sercomm_drv_rx_char_post.dlci"),
     (CT.SERCOMM, "\t\t   *sercomm.tx.next_char == HDLC_ESCAPE ||\n\t\t   *sercomm.tx.next_char == 0x00) {", "\t\t   *sercomm.tx.next_char == HDLC_ESCAPE) {",
      "sercomm_drv_pull_post.no_zero_between_flags"),
     (CT.SERCOMM, "\t\tsercomm.rx.msg = sercomm_alloc_msgb(SERCOMM_RX_MSG_SIZE);\n\t\tsercomm.rx.state = RX_ST_WAIT_START;\n\t\treturn 0;",
